@@ -159,6 +159,9 @@ def unfold_values(fn, seed, n):
     return xs
 
 
+DRAIN_AFTER_CANCEL = 64
+
+
 def gen_c11(rng, thorough):
     sc = []
     caps = [0, 1, 2, 3]
@@ -195,6 +198,18 @@ def gen_c11(rng, thorough):
             sc.append(unfold_script(rng, cap, fn, seed, "pure", (), n))
             for ci in range(0, n + 1, 1 if thorough else 2):
                 sc.append(unfold_script(rng, cap, fn, seed, "pure", (), n, cancel_at=ci, sched="cancel"))
+    # cancel, then a consumer that keeps receiving: the source must stop and close (a `select` with the send arm and the
+    # Done arm both ready is a coin flip, so a correct source survives k further receives with probability 2^-k)
+    for cap in caps:
+        for fn in (1, 3):
+            pre = ["r0"] * rng.randrange(0, 3)
+            sc.append(unfold_cfg(cap, fn, rng.choice([1, 5, 17]), "pure", (), "drain") + " | " + " ".join(pre + ["x"] + ["r0"] * (cap + DRAIN_AFTER_CANCEL + 2) + ["z"]))
+        for freq in freqs[:2]:
+            pre = ["t%d" % freq, "r0"] * rng.randrange(0, 3)
+            post = []
+            for _ in range(cap + DRAIN_AFTER_CANCEL + 2):
+                post += ["t%d" % freq, "r0"]
+            sc.append(emit_cfg(cap, freq, "pure", (), "drain") + " | " + " ".join(pre + ["x"] + post + ["z"]))
     for _ in range(2500 if thorough else 300):
         cap, fn, seed = rng.choice(caps), rng.choice([1, 2, 3]), rng.choice([0, 1, 2, 5, 17, 999999])
         mode = rng.choice(["pure", "pure", "lift", "try"])
@@ -225,6 +240,7 @@ def evaluate(script, tr):
     vals, errs = [], []          # (value, time)
     cancel_T = cancel_free = None
     recv_since_cancel = False
+    vals_after_cancel = 0
     exited = False               # a census of 0 was seen
     closed = set()
     last_log = None
@@ -248,6 +264,10 @@ def evaluate(script, tr):
                 vals.append((int(res[1:]), T))
                 if cancel_T is not None:
                     recv_since_cancel = True
+                    vals_after_cancel += 1
+                    if vals_after_cancel == cap + DRAIN_AFTER_CANCEL + 1:
+                        bad("%d values delivered after cancel to a consumer that keeps receiving: the source does not stop and close after cancel" % vals_after_cancel,
+                            key={"class": "keeps-producing-after-cancel"})
             elif res[0] == "e":
                 errs.append((int(res[1:]), T))
                 if cancel_T is not None:
